@@ -385,8 +385,10 @@ def _target_values_stay_as_given(col, rule="C09.R11"):
     live = [ev for ev in mx.events if ev.kind in ("call", "store", "return") and any(
         s_[:1] == ("attr",) and s_[2] == "_value" and s_[1][:1] == ("attr",) and s_[1][2] == "value"
         for tm in ([ev.term] if ev.kind == "call" else [ev.value] if ev.value is not None else []) for s_ in S.subterms(tm))]
-    col.add(rule, "MeritFunctionForMatch.__call__#reference-target-values-read-now", bool(live), mx.loc(live[0]) if live else mx.loc(mx.fn),
-            "a reference-valued target is read (`.value._value`) at each evaluation", "")
+    if not live:
+        raise AnalysisError("MeritFunctionForMatch.__call__: where a reference-valued target value is read is not recognised -- cannot decide")
+    col.ok(rule, "MeritFunctionForMatch.__call__#reference-target-values-read-now", mx.loc(live[0]),
+           "a reference-valued target is read (`.value._value`) at each evaluation", "")
 
 
 def check(col: Collector):
